@@ -330,8 +330,33 @@ theorem inv_step_full (c : Cfg) (pv : c.p.Valid) (s : MSt) (h0 : TreeInv (c.para
   | some res =>
     obtain ⟨ss1, o⟩ := res
     rw [hsp] at this
-    obtain ⟨s1, mo, l1, g1, _, g3, g4⟩ := this
+    obtain ⟨s1, mo, l1, g1, _, g3, g4, _⟩ := this
     exact Or.inr ⟨s1, mo, l1, g1, g3.inv0, g3.inv1, g4.1, g4.2⟩
+
+/-- **the ledger per register**: every operation other than the two swaps leaves the tree of the
+register it is not addressed to untouched, and its ledger balances the node count of the addressed
+register alone (`nodes before + allocated = nodes after + freed`; for `copy`/`assign` the freed nodes
+are the overwritten tree's, the allocated ones the copy's).  The two swaps exchange the registers:
+`BTree::swap` without any allocation, the wrappers' `std::swap` with three copies and three
+destructions, balanced in total (`inv_step_full`) -/
+theorem ledger_per_register (c : Cfg) (pv : c.p.Valid) (s : MSt) (h0 : TreeInv (c.params s.m0) s.t0)
+    (h1 : TreeInv (c.params s.m1) s.t1) (op : C01.Op) (hx : op.exchanges = false)
+    (s' : MSt) (mo : MOut) (lg : Ledger) (hstep : stepOp c s op = .ok (s', mo, lg)) :
+    (op.reg = 0 → s'.t1 = s.t1) ∧ (op.reg ≠ 0 → s'.t0 = s.t0) ∧
+    (s.get op.reg).nLeaves + lg.leafAlloc = (s'.get op.reg).nLeaves + lg.leafFree ∧
+    (s.get op.reg).nInner + lg.innerAlloc = (s'.get op.reg).nInner + lg.innerFree := by
+  have hrel : Rel c s { l0 := s.t0.toList, l1 := s.t1.toList, m0 := s.m0, m1 := s.m1 } := ⟨rfl, rfl, h0, h1, rfl, rfl⟩
+  have := stepOp_refines c pv s _ hrel op
+  cases hsp : specStep c { l0 := s.t0.toList, l1 := s.t1.toList, m0 := s.m0, m1 := s.m1 } op with
+  | none => rw [hsp] at this; rw [hstep] at this; cases this
+  | some res =>
+    obtain ⟨ss1, o⟩ := res
+    rw [hsp] at this
+    obtain ⟨s1, mo1, l1, g1, _, _, _, g5⟩ := this
+    rw [hstep] at g1
+    cases g1
+    obtain ⟨p1, p2, p3⟩ := g5 hx
+    exact ⟨p1, p2, p3.1, p3.2⟩
 
 /-- **for every history of the whole operation language** (two registers, any pair of comparators, every
 capacity ≥ 4, both in-node searches, unique and duplicate keys): no step leaves defined behaviour; both
